@@ -967,6 +967,7 @@ Proof.
   destruct (negb (list_eqb row_eqb (read_all nser (step false L o)) (o_dump ob))); [discriminate |].
   destruct (negb (list_eqb fobs_eqb (files_obs nser (ord (step false L o))) (o_ord ob))); [discriminate |].
   destruct (negb (list_eqb fobs_eqb (files_obs nser (ooo (step false L o))) (o_ooo ob))); [discriminate |].
+  destruct (negb (reads_ok nser (step false L o) (o_reads ob))); [discriminate |].
   eapply IH; eauto.
 Qed.
 Lemma check_case_allowed : forall c, check_case false 0 c = None -> ops_allowed (map fst (snd c)) = true.
